@@ -289,6 +289,20 @@ func (g *Gen) tupleWhere(ok func(t int, cs []int) bool) int {
 
 func (g *Gen) fn() int { return g.R.Intn(3) }
 
+// slotsWithOpenQuery returns those of the given standing-filter slots that have an open query.
+func (g *Gen) slotsWithOpenQuery(slots []int) []int {
+	var out []int
+	for _, s := range slots {
+		for _, q := range g.M.Queries {
+			if q.Open && q.SF == s {
+				out = append(out, s)
+				break
+			}
+		}
+	}
+	return out
+}
+
 // filterSpec draws a filter over the current world; typedOnly restricts to kinds usable for batches / registration.
 func (g *Gen) filterSpec(typedOnly bool, wantMatch bool) *FSpec {
 	f := &FSpec{}
@@ -967,6 +981,12 @@ func (g *Gen) make(k Kind) *Op {
 				unreg = append(unreg, i)
 			}
 		}
+		// a filter whose registration state changes while one of its queries is open is the interesting case: the
+		// query must go on with what it had when it was created
+		if wo := g.slotsWithOpenQuery(unreg); len(wo) > 0 && R.Chance(60) {
+			op.SF = wo[R.Intn(len(wo))]
+			break
+		}
 		switch {
 		case len(unreg) > 0 && R.Chance(50):
 			op.SF = unreg[R.Intn(len(unreg))]
@@ -991,6 +1011,9 @@ func (g *Gen) make(k Kind) *Op {
 			return nil
 		}
 		op.SF = reg[R.Intn(len(reg))]
+		if wo := g.slotsWithOpenQuery(reg); len(wo) > 0 && R.Chance(60) {
+			op.SF = wo[R.Intn(len(wo))]
+		}
 		if P.Avoid["F11"] {
 			for _, q := range g.M.Queries {
 				if q.Open && q.SF == op.SF && q.Cached {
